@@ -135,7 +135,7 @@ Proof.
       destruct (negb (j_lis j)); inversion H; reflexivity.
     + repeat match type of H with (if ?c then _ else _) = _ => destruct c end; inversion H; reflexivity.
   - destruct (is_nil (g_funcs g)).
-    + destruct (rmem (j_par j) (s_used s)); inversion H; reflexivity.
+    + destruct (rmem (res_of KHttp (j_par j) 0) (s_used s)); inversion H; reflexivity.
     + repeat match type of H with (if ?c then _ else _) = _ => destruct c end; inversion H; reflexivity.
   - repeat match type of H with (if ?c then _ else _) = _ => destruct c end; inversion H; reflexivity.
 Qed.
@@ -486,7 +486,7 @@ Proof.
       right. split; [exact En|]. split; [exact E1|]. split; [reflexivity|]. split; [discriminate|].
       left. reflexivity.
   - destruct (is_nil (g_funcs g)) eqn:En.
-    + apply is_nil_true in En. destruct (rmem (j_par j) (s_used s)); [inversion H|].
+    + apply is_nil_true in En. destruct (rmem (res_of KHttp (j_par j) 0) (s_used s)); [inversion H|].
       inversion H; subst. eexists; eexists. split; [reflexivity|]. simpl.
       repeat split; try reflexivity. left. simpl. rewrite En, (Hl eq_refl). simpl. repeat split; reflexivity.
     + destruct (negb (g_name g =? j_group j) || negb (lz_eqb (g_par g) (j_par j))) eqn:E1; [inversion H|].
@@ -1432,4 +1432,279 @@ Proof.
   simpl. unfold acquire. simpl. rewrite Hp, Hk. simpl. apply Z.eqb_neq in Hr. rewrite Hr.
   unfold allowed in *. simpl. rewrite Ha. unfold g_res. simpl. rewrite rmem_rdel_same. simpl. rewrite Hli. simpl.
   eexists. reflexivity.
+Qed.
+
+(* ------------------------------------------------------------------ *)
+(* a group with members keeps its port / route, whatever other groups do *)
+(* ------------------------------------------------------------------ *)
+Section Routes.
+Variable k : kind.
+Variable reqs : list req.
+
+Record InvU (s : st) : Prop := mkInvU {
+  U_in : forall gid g, nth_error (s_heap s) gid = Some g -> g_ep g = true -> rmem (g_res k g) (s_used s) = true;
+  U_inj : forall gid1 gid2 g1 g2, nth_error (s_heap s) gid1 = Some g1 -> nth_error (s_heap s) gid2 = Some g2 ->
+     g_ep g1 = true -> g_ep g2 = true -> g_res k g1 = g_res k g2 -> gid1 = gid2;
+  U_env : forall r, rmem r (s_env s) = true ->
+     rmem r (s_used s) = true /\ forall gid g, nth_error (s_heap s) gid = Some g -> g_ep g = true -> g_res k g <> r
+}.
+
+(* an update of one object that keeps its endpoint flag and its resource *)
+Lemma InvU_upd_same : forall s gid g g',
+  InvU s -> nth_error (s_heap s) gid = Some g -> g_ep g' = g_ep g -> g_res k g' = g_res k g ->
+  InvU (set_heap s (upd (s_heap s) gid g')).
+Proof.
+  intros s gid g g' [A B C] Hg He Hr. constructor; simpl.
+  - intros gid' g0 H0 Hep. apply upd_cases in H0. destruct H0 as [[-> ->]|[_ H0]]; [rewrite Hr; apply (A _ _ Hg); congruence|eauto].
+  - intros gid1 gid2 g1 g2 H1 H2 E1 E2 Hq.
+    apply upd_cases in H1. apply upd_cases in H2.
+    destruct H1 as [[-> ->]|[N1 H1]], H2 as [[-> ->]|[N2 H2]]; [reflexivity| | |eauto].
+    + rewrite Hr in Hq. rewrite He in E1. eapply B; eassumption.
+    + rewrite Hr in Hq. rewrite He in E2. eapply B; eassumption.
+  - intros r Hr'. destruct (C r Hr') as [C1 C2]. split; [exact C1|].
+    intros gid' g0 H0 Hep. apply upd_cases in H0. destruct H0 as [[-> ->]|[_ H0]]; [rewrite Hr; apply (C2 _ _ Hg); congruence|eauto].
+Qed.
+
+(* an object gives its resource up (last leave) *)
+Lemma InvU_release : forall s gid g g',
+  InvU s -> nth_error (s_heap s) gid = Some g -> g_ep g = true -> g_ep g' = false ->
+  InvU (set_used (set_heap s (upd (s_heap s) gid g')) (rdel (g_res k g) (s_used s))).
+Proof.
+  intros s gid g g' [A B C] Hg He He'. constructor; simpl.
+  - intros gid' g0 H0 Hep. apply upd_cases in H0. destruct H0 as [[-> ->]|[N H0]]; [congruence|].
+    rewrite rmem_rdel_other; [eauto|]. intro Hq. apply N. eapply B; eauto.
+  - intros gid1 gid2 g1 g2 H1 H2 E1 E2 Hq.
+    apply upd_cases in H1. apply upd_cases in H2.
+    destruct H1 as [[-> ->]|[N1 H1]]; [congruence|]. destruct H2 as [[-> ->]|[N2 H2]]; [congruence|]. eauto.
+  - intros r Hr'. destruct (C r Hr') as [C1 C2]. split.
+    + rewrite rmem_rdel_other; [exact C1|]. apply (C2 _ _ Hg He).
+    + intros gid' g0 H0 Hep. apply upd_cases in H0. destruct H0 as [[-> ->]|[_ H0]]; [congruence|eauto].
+Qed.
+
+(* an object without endpoint takes a resource that nobody has *)
+Lemma InvU_take : forall s gid g g',
+  InvU s -> nth_error (s_heap s) gid = Some g -> g_ep g = false ->
+  rmem (g_res k g') (s_used s) = false ->
+  InvU (set_used (set_heap s (upd (s_heap s) gid g')) (g_res k g' :: s_used s)).
+Proof.
+  intros s gid g g' [A B C] Hg He Hfree.
+  assert (Hcons : forall r u x, rmem r u = true -> rmem r (x :: u) = true).
+  { intros r u x H. apply rmem_In. right. apply rmem_In. exact H. }
+  constructor; simpl.
+  - intros gid' g0 H0 Hep. apply upd_cases in H0. destruct H0 as [[-> ->]|[_ H0]].
+    + rewrite lz_eqb_refl. reflexivity.
+    + rewrite (A _ _ H0 Hep). apply orb_true_r.
+  - intros gid1 gid2 g1 g2 H1 H2 E1 E2 Hq.
+    apply upd_cases in H1. apply upd_cases in H2.
+    destruct H1 as [[-> ->]|[N1 H1]], H2 as [[-> ->]|[N2 H2]]; [reflexivity| | |eauto].
+    + exfalso. rewrite Hq in Hfree. rewrite (A _ _ H2 E2) in Hfree. discriminate.
+    + exfalso. rewrite <- Hq in Hfree. rewrite (A _ _ H1 E1) in Hfree. discriminate.
+  - intros r Hr'. destruct (C r Hr') as [C1 C2]. split; [rewrite C1; apply orb_true_r|].
+    intros gid' g0 H0 Hep. apply upd_cases in H0. destruct H0 as [[-> ->]|[_ H0]]; [|eauto].
+    intro Hq. rewrite Hq in Hfree. congruence.
+Qed.
+
+Lemma lookup_invu : forall s n s' gid, InvU s -> lookup s n = (s', gid) -> InvU s'.
+Proof.
+  intros s n s' gid [A B C] H. unfold lookup in H. destruct (tab_get (s_tab s) n); inversion H; subst; [constructor; assumption|].
+  assert (Hcase : forall gid' g0, nth_error (s_heap s ++ [new_grp]) gid' = Some g0 -> g_ep g0 = true -> nth_error (s_heap s) gid' = Some g0).
+  { intros gid' g0 H0 He. apply nth_error_app_cases in H0. destruct H0 as [H0|[_ ->]]; [exact H0|discriminate]. }
+  constructor; simpl.
+  - intros gid' g0 H0 He. eauto.
+  - intros gid1 gid2 g1 g2 H1 H2 E1 E2. eauto.
+  - intros r Hr. destruct (C r Hr) as [C1 C2]. split; [exact C1|]. intros gid' g0 H0 He. eauto.
+Qed.
+
+(* what step 2 of a join does to ports / routes *)
+Lemma mutate_res_spec : forall s gid g j lid s' r,
+  nth_error (s_heap s) gid = Some g -> mutate k s gid j lid = (s', r) ->
+  s' = s \/
+  (exists g', s' = set_heap s (upd (s_heap s) gid g') /\ g_ep g' = g_ep g /\ g_res k g' = g_res k g) \/
+  (exists g', s' = set_used (set_heap s (upd (s_heap s) gid g')) (g_res k g' :: s_used s) /\
+              members k g = [] /\ rmem (g_res k g') (s_used s) = false).
+Proof.
+  intros s gid g j lid s' r Hg H. unfold mutate in H. rewrite Hg in H.
+  destruct k eqn:Ek.
+  - destruct (is_nil (g_lns g)) eqn:En.
+    + apply is_nil_true in En. unfold acquire in H.
+      destruct (j_port j =? 0).
+      * destruct (j_pick j =? 0); [destruct (j_os j && free_exists s); inversion H; auto|].
+        destruct (allowed s (j_pick j) && negb (rmem [j_pick j] (s_used s))) eqn:Ea; [|inversion H; auto].
+        destruct (negb (j_lis j)); [inversion H; auto|]. inversion H; subst. right. right.
+        exists (set_first g j (j_pick j) lid true). split; [reflexivity|]. split; [exact En|]. simpl. unfold g_res. simpl.
+        apply andb_prop in Ea. destruct Ea as [_ Ea]. apply negb_true_iff in Ea. exact Ea.
+      * destruct (allowed s (j_port j) && negb (rmem [j_port j] (s_used s))) eqn:Ea.
+        -- destruct (j_os j); [|inversion H; auto].
+           destruct (negb (j_lis j)); [inversion H; auto|]. inversion H; subst. right. right.
+           exists (set_first g j (j_port j) lid true). split; [reflexivity|]. split; [exact En|]. simpl. unfold g_res. simpl.
+           apply andb_prop in Ea. destruct Ea as [_ Ea]. apply negb_true_iff in Ea. exact Ea.
+        -- destruct (rmem [j_port j] (s_used s)); inversion H; auto.
+    + repeat match type of H with (if ?c then _ else _) = _ => destruct c end; inversion H; subst; auto.
+      right. left. eexists. split; [reflexivity|]. split; reflexivity.
+  - destruct (is_nil (g_funcs g)) eqn:En.
+    + apply is_nil_true in En.
+      destruct (rmem (res_of KHttp (j_par j) 0) (s_used s)) eqn:Ea; inversion H; subst; auto.
+      right. right. exists (add_func (set_http_first g j) (j_m j)). split; [reflexivity|]. split; [exact En|]. exact Ea.
+    + repeat match type of H with (if ?c then _ else _) = _ => destruct c end; inversion H; subst; auto.
+      right. left. eexists. split; [reflexivity|]. split; reflexivity.
+  - destruct (negb (j_mux j)); [inversion H; auto|].
+    destruct (is_nil (g_lns g)) eqn:En.
+    + apply is_nil_true in En.
+      destruct (rmem (res_of KMux (j_par j) 0) (s_used s)) eqn:Ea; inversion H; subst; auto.
+      right. right. exists (set_first g j 0 lid true). split; [reflexivity|]. split; [exact En|]. exact Ea.
+    + repeat match type of H with (if ?c then _ else _) = _ => destruct c end; inversion H; subst; auto.
+      right. left. eexists. split; [reflexivity|]. split; reflexivity.
+Qed.
+
+Lemma InvU_tab : forall s t, InvU s -> InvU (set_tab s t).
+Proof. intros s t [A B C]. constructor; simpl; assumption. Qed.
+
+Lemma InvU_env_take : forall s r, InvU s -> rmem r (s_used s) = false ->
+  InvU (set_env (set_used s (r :: s_used s)) (r :: s_env s)).
+Proof.
+  intros s r [A B C] Hf. constructor; simpl.
+  - intros gid g Hg He. rewrite (A _ _ Hg He). apply orb_true_r.
+  - exact B.
+  - intros r' Hr'. apply orb_prop in Hr'. destruct Hr' as [Hr'|Hr'].
+    + apply lz_eqb_eq in Hr'. subst r'. rewrite lz_eqb_refl. split; [reflexivity|].
+      intros gid g Hg He Hq. rewrite <- Hq in Hf. rewrite (A _ _ Hg He) in Hf. discriminate.
+    + destruct (C r' Hr') as [C1 C2]. split; [rewrite C1; apply orb_true_r|exact C2].
+Qed.
+
+Lemma InvU_env_free : forall s r, InvU s -> rmem r (s_env s) = true ->
+  InvU (set_env (set_used s (rdel r (s_used s))) (rdel r (s_env s))).
+Proof.
+  intros s r [A B C] Hin. destruct (C r Hin) as [_ Cr]. constructor; simpl.
+  - intros gid g Hg He. rewrite rmem_rdel_other; [eauto|]. intro Hq. exact (Cr _ _ Hg He (eq_sym Hq)).
+  - exact B.
+  - intros r' Hr'. destruct (lz_eqb r r') eqn:E.
+    + apply lz_eqb_eq in E. subst r'. rewrite rmem_rdel_same in Hr'. discriminate.
+    + assert (Hne : r <> r') by (intro; subst; rewrite lz_eqb_refl in E; discriminate).
+      rewrite rmem_rdel_other in Hr' by exact Hne. destruct (C r' Hr') as [C1 C2].
+      split; [rewrite rmem_rdel_other by exact Hne; exact C1|exact C2].
+Qed.
+
+End Routes.
+
+Lemma step_u : forall k reqs i c c', InvC k reqs c -> InvU k (c_s c) -> step k reqs i c = Run c' -> InvU k (c_s c').
+Proof.
+  intros k reqs i c c' I U Hs. pose proof I as [K V TV L E M UQ ND B]. unfold step, stepg in Hs.
+  destruct (nth_error reqs i) as [[j|jt|r who|r|r]|] eqn:Er; [| | | | |inversion Hs; subst; exact U].
+  - destruct (nth_error (c_t c) i) as [t|] eqn:Et; [|inversion Hs; subst; exact U].
+    destruct t; try (inversion Hs; subst; exact U).
+    + destruct (lookup (c_s c) (j_group j)) as [s1 gid] eqn:El.
+      destruct (lookup_inv k reqs _ _ _ _ _ I El) as [I1 [Hin _]].
+      pose proof (lookup_invu k _ _ _ _ U El) as U1.
+      destruct (mutate k s1 gid j (lid_of k j i)) as [s2 r] eqn:Em. inversion Hs; subst. simpl.
+      destruct I1 as [K1 V1 TV1 L1 E1 M1 UQ1 ND1 B1].
+      destruct (TV1 _ _ Hin) as [g [Hg _]].
+      destruct (mutate_res_spec k _ _ _ _ _ _ _ Hg Em) as [->|[[g' [-> [He Hr]]]|[g' [-> [Hm Hf]]]]].
+      * exact U1.
+      * eapply InvU_upd_same; eassumption.
+      * eapply InvU_take; try eassumption. destruct (g_ep g) eqn:Ee; [|reflexivity].
+        exfalso. apply (proj1 (E1 _ _ Hg)); assumption.
+    + destruct (closing i (c_cl c) && negb (nmem i (c_dead c))); inversion Hs; subst; exact U.
+    + destruct (closing i (c_cl c) && negb (nmem i (c_dead c))); inversion Hs; subst; exact U.
+  - destruct (nth_error (c_t c) i) as [t|] eqn:Et; [|inversion Hs; subst; exact U].
+    destruct t; try (inversion Hs; subst; exact U).
+    + destruct (nth_error reqs jt) as [[j| | | |]|] eqn:Ej; try (inversion Hs; subst; exact U).
+      destruct (nth_error (c_t c) jt) as [tj|] eqn:Etj; [|inversion Hs; subst; exact U].
+      destruct tj; try (inversion Hs; subst; exact U).
+      destruct (M _ _ _ _ Ej Etj) as [g [Hg [Hlid Hnm]]].
+      assert (Hmne : members k g <> []) by (intro Hm; rewrite Hm in Hlid; exact Hlid).
+      assert (Hep : g_ep g = true) by (apply (E _ _ Hg); exact Hmne).
+      destruct k eqn:Ek; try (destruct (closing jt (c_cl c)); inversion Hs; subst; exact U).
+      (* http *)
+      inversion Hs; subst. simpl. clear Hs.
+      pose proof (L _ _ Hg Hmne) as Hin. rewrite Hnm in Hin.
+      unfold leave_http. rewrite (In_tab_get _ _ _ K Hin), Hg.
+      destruct (is_nil (filter (fun x => negb (x =? j_m j)) (g_funcs g))).
+      * apply InvU_tab. eapply InvU_release; try eassumption. reflexivity.
+      * eapply InvU_upd_same; try eassumption; reflexivity.
+    + destruct k eqn:Ek; try (inversion Hs; subst; exact U);
+        (destruct (nth_error reqs jt) as [[j| | | |]|] eqn:Ej; try (inversion Hs; subst; exact U);
+         destruct (nth_error (c_t c) jt) as [tj|] eqn:Etj; [|inversion Hs; subst; exact U];
+         destruct tj; try (inversion Hs; subst; exact U);
+         destruct (M _ _ _ _ Ej Etj) as [g [Hg [Hlid Hnm]]];
+         assert (Hmne : g_lns g <> []) by (intro Hm; simpl in Hlid; rewrite Hm in Hlid; exact Hlid);
+         assert (Hep : g_ep g = true) by (apply (E _ _ Hg); exact Hmne);
+         unfold leave_chan in Hs; rewrite Hg in Hs;
+         destruct (is_nil (remove_first (Z.of_nat jt) (g_lns g)));
+         [destruct (g_closed g); [discriminate|]; inversion Hs; subst; simpl;
+          apply InvU_tab;
+          match goal with |- InvU ?kk _ => apply (InvU_release kk (c_s c) gid g (shut g)); try assumption; reflexivity end
+         |inversion Hs; subst; simpl;
+          match goal with |- InvU ?kk (set_heap _ (upd _ _ ?g')) => apply (InvU_upd_same kk (c_s c) gid g g'); try assumption; reflexivity end]).
+  - destruct (nth_error (c_t c) i) as [t|] eqn:Et; [|inversion Hs; subst; exact U].
+    destruct t; try (inversion Hs; subst; exact U).
+    + destruct (find_ep k (c_s c) r) as [gid|]; [|inversion Hs; subst; exact U].
+      destruct (nth_error (s_heap (c_s c)) gid) as [g|] eqn:Eg; [|inversion Hs; subst; exact U].
+      destruct k eqn:Ek.
+      * destruct (g_wk g); [destruct (existsb _ _)|]; inversion Hs; subst; exact U.
+      * destruct (http_pick g) as [g' o] eqn:Ep. inversion Hs; subst. simpl.
+        apply http_pick_proj in Ep. subst g'. eapply InvU_upd_same; try eassumption; reflexivity.
+      * destruct (g_wk g); [destruct (existsb _ _)|]; inversion Hs; subst; exact U.
+    + destruct (nth_error (s_heap (c_s c)) gid) as [g|] eqn:Eg; [|inversion Hs; subst; exact U].
+      destruct (g_closed g).
+      * inversion Hs; subst. simpl. destruct (gen =? g_gen g).
+        -- eapply InvU_upd_same; try eassumption; reflexivity.
+        -- eapply InvU_upd_same; try eassumption; reflexivity.
+      * destruct (can_receive c gid who); inversion Hs; subst; exact U.
+  - destruct (nth_error (c_t c) i) as [t|] eqn:Et; [|inversion Hs; subst; exact U].
+    destruct t; try (inversion Hs; subst; exact U).
+    destruct (rmem r (s_used (c_s c))) eqn:Em; inversion Hs; subst; [exact U|]. simpl. apply InvU_env_take; assumption.
+  - destruct (nth_error (c_t c) i) as [t|] eqn:Et; [|inversion Hs; subst; exact U].
+    destruct t; try (inversion Hs; subst; exact U).
+    destruct (rmem r (s_env (c_s c))) eqn:Em; inversion Hs; subst; [|exact U]. simpl. apply InvU_env_free; assumption.
+Qed.
+
+Lemma run_u : forall k reqs sched c, InvC k reqs c -> InvU k (c_s c) ->
+  exists c', run k reqs sched (Run c) = Run c' /\ InvC k reqs c' /\ InvU k (c_s c').
+Proof.
+  intros k reqs. induction sched as [|i sched IH]; intros c I U; [exists c; auto|].
+  destruct (step_inv k reqs i c I) as [c1 [H1 I1]]. pose proof (step_u _ _ _ _ _ I U H1) as U1.
+  destruct (IH c1 I1 U1) as [c' [H' R]]. exists c'. split; [|exact R].
+  unfold run in *. simpl. fold (step k reqs i c). rewrite H1. exact H'.
+Qed.
+
+(* for all request lists and all schedules: as long as a group has members its port / route is booked,
+   no two groups with members share one, and what the environment holds belongs to no group — so the
+   joins, leaves and recreations of every OTHER group (and of non-group proxies) leave it intact *)
+Theorem live_group_keeps_its_route : forall k reqs sched lo hi c,
+  run k reqs sched (init lo hi reqs) = Run c ->
+  (forall gid g, nth_error (s_heap (c_s c)) gid = Some g -> members k g <> [] ->
+     rmem (g_res k g) (s_used (c_s c)) = true /\ rmem (g_res k g) (s_env (c_s c)) = false) /\
+  (forall gid1 gid2 g1 g2, nth_error (s_heap (c_s c)) gid1 = Some g1 -> nth_error (s_heap (c_s c)) gid2 = Some g2 ->
+     members k g1 <> [] -> members k g2 <> [] -> g_res k g1 = g_res k g2 -> gid1 = gid2).
+Proof.
+  intros k reqs sched lo hi c H.
+  assert (U0 : InvU k (c_s (init_cfg lo hi (length reqs)))).
+  { constructor; simpl; intros; try discriminate; exfalso; eapply nth_error_nil_inv; eassumption. }
+  destruct (run_u k reqs sched _ (init_inv k reqs lo hi (length reqs)) U0) as [c' [H' [I [A B C]]]].
+  unfold init in H. rewrite H in H'. inversion H'; subst c'. clear H'.
+  destruct I as [K V TV L E M UQ ND Bk]. split.
+  - intros gid g Hg Hm. assert (He : g_ep g = true) by (apply (E _ _ Hg); exact Hm).
+    split; [eauto|]. destruct (rmem (g_res k g) (s_env (c_s c))) eqn:Ee; [|reflexivity].
+    exfalso. destruct (C _ Ee) as [_ C2]. exact (C2 _ _ Hg He eq_refl).
+  - intros gid1 gid2 g1 g2 H1 H2 M1 M2 Hq. eapply B; try eassumption; [apply (E _ _ H1)|apply (E _ _ H2)]; assumption.
+Qed.
+
+(* the leave of one group, step level: every other port / route stays exactly as it was *)
+Lemma leave_touches_only_own_route : forall k s gid g lid s' r,
+  nth_error (s_heap s) gid = Some g -> leave_chan k s gid lid = Some s' -> r <> g_res k g ->
+  rmem r (s_used s') = rmem r (s_used s).
+Proof.
+  intros k s gid g lid s' r Hg H Hr. unfold leave_chan in H. rewrite Hg in H.
+  destruct (is_nil (remove_first lid (g_lns g))).
+  - destruct (g_closed g); [discriminate|]. inversion H; subst. simpl. apply rmem_rdel_other. congruence.
+  - inversion H; subst. reflexivity.
+Qed.
+
+Lemma leave_http_touches_only_own_route : forall s n m gid g r,
+  tab_get (s_tab s) n = Some gid -> nth_error (s_heap s) gid = Some g -> r <> g_res KHttp g ->
+  rmem r (s_used (leave_http s n m)) = rmem r (s_used s).
+Proof.
+  intros s n m gid g r Ht Hg Hr. unfold leave_http. rewrite Ht, Hg.
+  destruct (is_nil (filter (fun x => negb (x =? m)) (g_funcs g))); [|reflexivity].
+  cbn [s_used set_tab set_used]. apply rmem_rdel_other. intro Hq. apply Hr. symmetry. exact Hq.
 Qed.
